@@ -19,7 +19,7 @@ COMPONENTS = {
     'stub': ['OS thread scheduling', 'clocks', 'os.urandom', 'object store (SimStore)'],
 }
 ASSUMPTIONS = ['scrypt n capped at 2**10 (cost)', 'the probe file has a single chunk, so tiny digest sizes cannot collide']
-PROBES = ['near_miss_unlock_tried', 'init_rejected', 'init_accepted', 'addkey_rejected', 'addkey_accepted', 'cross_unlock_tried', 'foreign_repository_in_cache']
+PROBES = ['near_miss_unlock_tried', 'init_rejected', 'init_accepted', 'addkey_rejected', 'addkey_accepted', 'cross_unlock_tried', 'foreign_repository_in_cache', 'key_written_over_longer_file']
 TIERS = {'quick': {'budget_s': 60, 'batch': 20}, 'thorough': {'budget_s': 600, 'batch': 40}}
 
 BAD_INTS = [0, -1, -64, 1, 3, 7, 8.5, 64.0, '64', True, None, 10**6, 4097]
@@ -114,7 +114,8 @@ def gen_case(seed, tier):
             'flavour': rng.choice(['sync', 'async']), 'N': rng.choice([1, 2, 3]),
             'opts': world.SchedOpts.swarm(rng).as_dict(),
             'probe_size': rng.choice([0, 1, 3, 4, 5]),
-            'foreign_cache': substream(seed, 'c17-cache').random() < 0.25}
+            'foreign_cache': substream(seed, 'c17-cache').random() < 0.25,
+            'key_files': substream(seed, 'c17-keyfiles').random() < 0.3}
 
 
 def _safe_for_sim(settings):
@@ -153,8 +154,22 @@ def _run_case(case):
         # long pass-phrases that agree on their first 64+ bytes (key files, sentences)
         stem = (b'correct horse battery staple ' * 4)[:70] if case.get('long_passwords') else b''
         cache = str(W.dir / 'cache') if case.get('foreign_cache') else None
+        h = settings.get('hashing') if isinstance(settings.get('hashing'), dict) else {}
+        if isinstance(h.get('length'), int) and not isinstance(h.get('length'), bool) and h['length'] < 8:
+            # digests of a few bytes collide for real (1 in 256 for length 1); the cache verifies entries by digest,
+            # and "hash collisions do not occur" is an assumption of every check
+            cache = None
         owner = world.Client('owner', password=stem + b'owner password', concurrent=case['N'], cache_dir=cache)
-        r = W.init(owner, settings, opts)
+        kp = None
+        if case.get('key_files'):
+            # keys go to a file (-o), always the same path, which holds an older and longer file already;
+            # the key a user works with is what that file contains afterwards
+            kp = W.dir / 'the.key'
+            kp.write_bytes(b'{"an older key file": "' + b'k' * 4000 + b'"}')
+            probes['key_written_over_longer_file'] = 1
+        r = W.init(owner, settings, opts, key_output_path=kp)
+        if kp is not None and r.ok and r.value['key'] is not None:
+            owner.key = kp.read_bytes()
         journal = list(W.state.journal)
         if r.hang is not None or r.crashed:
             viol.append({'cls': 'init-hang', 'sig': {}, 'msg': f'init did not terminate: {r.outcome()} {r.hang!r}'})
@@ -186,7 +201,9 @@ def _run_case(case):
                 new = world.Client(f'k{i}', password=stem + f'password of key {i}'.encode(), concurrent=case['N'], cache_dir=cache)
                 before = len(W.state.journal)
                 ks = _safe_for_sim(copy.deepcopy(k['settings'])) if k['settings'] else None
-                r = W.add_key(parent, new, shared=k['kind'] == 'shared', clone=k['kind'] == 'clone', settings=ks, opts=opts)
+                r = W.add_key(parent, new, shared=k['kind'] == 'shared', clone=k['kind'] == 'clone', settings=ks, opts=opts, key_output_path=kp)
+                if kp is not None and r.ok:
+                    new.key = kp.read_bytes()
                 if r.hang is not None or r.crashed:
                     viol.append({'cls': 'init-hang', 'sig': {'cmd': 'add-key'}, 'msg': f'add-key did not terminate: {r.outcome()}'})
                     break
